@@ -47,7 +47,7 @@ def plan(tier, seed):
                                                                   "schema.SchemaHelper"]))
     jobs.append(ch("C15", "vf/pyshim/h_page.py", "h_page_v1_nested", t, ["core.read_data_page", "core.read_rep",
                                                                         "core.read_def"]))
-    for h in ("h_levels", "h_levels_two_columns", "h_list_shape", "h_map_shape"):
+    for h in ("h_levels", "h_levels_two_columns", "h_list_shape", "h_list_shape_types", "h_map_shape"):
         jobs.append(ch("C15", "vf/pyshim/h_schema.py", h, t, ["schema.SchemaHelper", "schema._is_list_like",
                                                              "schema._is_map_like"]))
     extra = dict(
